@@ -143,6 +143,10 @@ func genX(r *hx.Rng) *xtrace {
 	k := int64(1 + r.Intn(4)) // slots per index group
 	nIG := 1 + r.Intn(3)
 	ds := []int64{G, 2 * G, k * G, (k + 1) * G, 3*G + hour, 30 * 24 * hour}
+	if r.Chance(12) {
+		// the "keep forever" idioms: end + duration lies beyond the int64 nanosecond range (2262)
+		ds = append(ds, 99999*day, 105000*day, 36500*day)
+	}
 	if r.Chance(20) {
 		t.d0 = 0
 	} else {
